@@ -683,9 +683,11 @@ func scenarioForeignClient(c *harness.Ctx) {
 	nCmd := 1 + tp.Choose(4)
 	ids := make([]int32, nCmd+1)
 	for i := range ids {
+		// (any int32 is a legal request id for the server, also -1: such a client
+		// cannot tell acceptance from refusal, the server still has to)
 		ids[i] = id32(tp)
 		if ids[i] == -1 {
-			ids[i] = 7
+			pForeignMinusOne.Hit()
 		}
 	}
 	cmds, resps := make([]string, nCmd), make([]string, nCmd)
@@ -800,3 +802,5 @@ var prop = &harness.Property{
 func TestWorker(t *testing.T) { harness.Main(t, prop) }
 
 var pPwWhitespace = simrt.NewProbe("login.password.with.white.space.or.line.ending")
+
+var pForeignMinusOne = simrt.NewProbe("foreign.client.request.id.-1")
